@@ -68,9 +68,14 @@ type Fault struct {
 	Kind   string // "" = any, else an Entry.Kind
 	Table  string // "" = any; case-insensitive
 	Nth    int
-	Err    error // nil -> *mysql.MySQLError{Number:1105, Message:"injected fault"}
-	Sticky bool  // keep failing every later match too
+	Err    error         // nil -> *mysql.MySQLError{Number:1105, Message:"injected fault"}
+	Sticky bool          // keep failing every later match too
+	Delay  time.Duration // > 0: the statement is not failed but held up for this long (a slow server)
 }
+
+type delayFault struct{ d time.Duration }
+
+func (d *delayFault) Error() string { return "delay" }
 
 type faultState struct {
 	Fault
@@ -600,7 +605,9 @@ func (e *Engine) matchFault(s *session, kind, tbl string) error {
 		}
 		e.fired++
 		out = f.Err
-		if out == nil {
+		if f.Delay > 0 {
+			out = &delayFault{f.Delay}
+		} else if out == nil {
 			out = &mysql.MySQLError{Number: 1105, Message: "injected fault"}
 		}
 	}
